@@ -360,3 +360,75 @@ def suite_announce_all_accepted(tier, seed):
                           "the ids handed to the notifier are not exactly the ids of the events accepted as new",
                           expected=len(expected), observed={"announced": len(got), "missing": missing[:3]})
     return s
+
+
+# ------------------------------------------------------------------------------------ C08 / C09 / C17
+def suite_removed_unreachable_after_read(tier, seed, how_list=("delete5", "replace", "gc")):
+    """an event that was READ through every access path before it is removed (deleted by its author, superseded,
+    garbage-collected) is afterwards absent from every access path - catches caches that are not invalidated"""
+    s = Suite("oracle:removed-unreachable-after-read")
+    s.rule = ("an event is stored and read through get_event (the /e/<id> path), REQ by id, by author+kind and by tag; then it is removed "
+              "(%s); then it is read again through the same paths, twice: it must not be served by any; a control event that is not "
+              "removed must still be served; both backends" % ", ".join(how_list))
+    rng = rng_for(seed, "unreach-" + "-".join(how_list))
+
+    async def reads(st, ev):
+        out = {}
+        try:
+            g = await st.get_event(ev["id"])
+            out["get_event"] = bool(g)
+        except Exception as e:
+            out["get_event"] = "crash:" + type(e).__name__
+        for name, f in (("ids", {"ids": [ev["id"]]}), ("author_kind", {"authors": [ev["pubkey"]], "kinds": [ev["kind"]]}),
+                        ("tag", {"#t": ["rr"]})):
+            got, _ = await env.req(st, [f])
+            out[name] = any(e.id == ev["id"] for e in got)
+        return out
+
+    async def one(backend, how):
+        from nostr_relay.storage.db import QueryGarbageCollector
+        env.load_config()
+        env.patch_clock()
+        env.set_clock(env.NOW)
+        sc = env.Scratch()
+        st = await (env.sql_storage(sc) if backend == "sql" else env.kv_storage(sc))
+        who = rng.randrange(3)
+        kind = {"delete5": 1, "replace": 10002, "gc": 1}[how]
+        tags = [["t", "rr"]] + ([["expiration", str(env.NOW + 50)]] if how == "gc" else [])
+        victim = env.mk_event(who, kind, env.NOW - 100, tags, "victim %d" % rng.randrange(10 ** 6))
+        control = env.mk_event((who + 1) % 3, 1, env.NOW - 90, [["t", "rr"]], "control %d" % rng.randrange(10 ** 6))
+        await _submit(st, victim)
+        await _submit(st, control)
+        await env.quiesce(st)
+        before = await reads(st, victim)
+        if how == "delete5":
+            await _submit(st, env.mk_event(who, 5, env.NOW - 10, [["e", victim["id"]]], ""))
+        elif how == "replace":
+            await _submit(st, env.mk_event(who, kind, env.NOW - 10, [["t", "rr"]], "newer"))
+        else:
+            env.set_clock(env.NOW + 100)
+            if backend == "sql":
+                await QueryGarbageCollector(st).run_once()
+            else:
+                from nostr_relay.storage.kv import KVGarbageCollector
+                await KVGarbageCollector(st).run_once()
+            env.set_clock(env.NOW)
+        await env.quiesce(st)
+        after = await reads(st, victim)
+        after2 = await reads(st, victim)
+        ctl = await reads(st, control)
+        await env.close(st)
+        sc.close()
+        return {"backend": backend, "removed_by": how}, {"before": before, "after": after, "after_again": after2, "control": ctl}
+    for backend in ("sql", "kv"):
+        for how in how_list:
+            for _ in range(1 if tier == "quick" else 4):
+                case, obs = env.run(one(backend, how))
+                s.case(case, nontrivial=all(v is True for v in obs["before"].values()))
+                served = [k for k, v in list(obs["after"].items()) + list(obs["after_again"].items()) if v is not False]
+                lost = [k for k, v in obs["control"].items() if v is not True]
+                if served:
+                    s.violate("removed-event-still-served", case, "a removed event is still served through: %s" % sorted(set(served)), observed=obs)
+                elif lost:
+                    s.violate("unrelated-event-lost", case, "an event that was not removed is no longer served through: %s" % lost, observed=obs)
+    return s
